@@ -126,7 +126,7 @@ def cached_runs(ctx):
         runs = run_worlds(worlds)
         # keep the cache directory small
         for f in os.listdir(d):
-            if f.endswith(".json") and f != key + ".json":
+            if f.endswith(".json") and not f.endswith(".model.json") and f != key + ".json":
                 try:
                     os.remove(os.path.join(d, f))
                 except OSError:
